@@ -129,6 +129,7 @@ class InterpBase:
         self._site_ids: Dict[Tuple, int] = {}
         self.pairs_base: Dict[Any, Length] = {}
         self.opaque_funcs: set = set()
+        self.default_factories: Dict[str, Any] = {}
         self.number_locals: bool = False
         self.shift_mode: bool = False
         self.track_sym_ranges: bool = False
